@@ -32,6 +32,8 @@ CLAIMED = {
          "translator-regenerated Lean tables + decide-checked theorems + exhaustive enumeration of the real server"),
  "C12": ("proof", "Lean: every enqueue record of every model run satisfies C12.stepOK (admission iff below depth, drop_oldest accounting, refusal leaves queue unchanged); tie: admit-profile traces on memory and SQLite", "§7 C12",
          "Lean proof over the queue model + differential correspondence (memory, SQLite)"),
+ "C13": ("proof", "Lean: the queue contract is a function of (state, op, choice) - deterministic, choice-free for all non-dequeue/non-evicting operations, dequeue count independent of the pick - and every record of every run satisfies the C02-C05/C12/C14 predicates, so two refinements agree modulo the free choices; tie: lock-step execution of the same generated Store-call history on memory and SQLite, each checked against its own model instance step by step AND compared directly (responses + full snapshots modulo generated lease ids) whenever the choice was forced", "§7 C13",
+         "Lean determinism theorems + lock-step differential (memory vs SQLite vs model)"),
  "C14": ("proof", "Lean: every operator-mutation record of every model run satisfies C14.stepOK (exact frame, newest-first capped selection, preview = real, counts exact); tie: operator-profile traces with tie timestamps", "§7 C14",
          "Lean proof over the queue model + differential correspondence (memory, SQLite)"),
 }
